@@ -11,7 +11,7 @@ RULE = ("records = one column each: strictly monotonic integer target_data profi
         "the log-space weight is the same rational), through the kernel and through Grid.transform with bare-array, 1-D "
         "and N-D targets, custom suffix, extra dims in both orders, dask chunking; non-trivial = distinct "
         "(theta, levels, options, route)"
-        ' Also: target values under affine maps, target_data left at its default (the axis coordinate, input with or without it), integer / float32 target_data, 1-D targets with foreign index labels, data with one more dimension than target_data, an earlier transform on the same Grid.')
+        ' Also: target values under affine maps, target_data left at its default (the axis coordinate, input with or without it), integer / float32 target_data, 1-D targets with foreign index labels, data with one more dimension than target_data, an earlier transform on the same Grid, the level 0 under method log.')
 
 
 def mono(rng, n, T):
@@ -168,6 +168,8 @@ def gen_jobs(rng, thorough):
             pool = list(range(-2, 2 * T2 + 3))
             lv = [rng.choice(pool) for _ in range(nlev)]
             lv += [2 * thetas[0][0], 2 * thetas[0][-1]][: rng.randint(0, 2)]  # exactly on the end values
+            if method == "log" and rng.random() < 0.3:
+                lv.append(-4000)      # 2 ** -2000 is 0.0 in binary64: the level 0, below every positive target_data
             rng.shuffle(lv)
             return lv
 
